@@ -18,8 +18,10 @@ func init() {
 		data := scen.DataSpec(tier == "thorough")
 		// one level shallower than C16's own run: every state costs ~70 queries here
 		data.DepthQuick, data.DepthThor = 3, 4
-		return engineAWith("C15", tier, []scen.Spec{data},
-			func() []explore.Monitor { return []explore.Monitor{&mon.C15{Universe: scen.DataUniverse()}} },
+		return engineAWith("C15", tier, []scen.Spec{scen.DataLong(), data},
+			func() []explore.Monitor {
+				return []explore.Monitor{&mon.C15{Universe: append(scen.DataUniverse(), scen.DataLongUniverse()...)}}
+			},
 			budget(tier, 100*time.Second, 10*time.Minute),
 			func(o *runner.Outcome) { pure.C15Into(tier, o, false) },
 			"on-chain part: ghost of the successful Anchor/Attest/RegisterResolver messages per content hash; on every distinct state the by-hash, by-IRI and conversion queries are asked for every content hash of a fixed universe (7 used by the alphabet, 2 never used) and must answer with exactly that content hash's record or not at all",
